@@ -180,8 +180,15 @@ ldb_set_current_file(const char *dbname, uint64_t desc_number) {
 
   rc = ldb_write_file(tmp, &data, 1);
 
-  if (rc == LDB_OK)
+  if (rc == LDB_OK) {
     rc = ldb_rename_file(tmp, cur);
+
+    /* Make the switch durable before the caller deletes the files that
+       only the previous MANIFEST needed (best effort: CURRENT already
+       names the new MANIFEST, so a failure here must not undo it). */
+    if (rc == LDB_OK)
+      ldb_sync_dir(dbname);
+  }
 
   if (rc != LDB_OK)
     ldb_remove_file(tmp);
